@@ -984,6 +984,33 @@ fn gen_scenario(r: &mut Rng, stream: u32) -> Scenario {
             }
         }
     }
+    // mint / burn HISTORIES on an asset that a UTxO holds: several individually legal add_asset / set_asset / add_mint_asset
+    // steps whose running sum lands on +-2^64, +-(2^64-1), +-2^63 or 0 (kept in order: they go in front of the balancing step)
+    let mut hist: Vec<Op> = vec![];
+    if matches!(stream, 2 | 4 | 6) && r.chance(1, 3) {
+        let holders: Vec<(Vec<u8>, Vec<u8>)> = utxos.iter().filter_map(|(_, v)| v.assets.as_ref()).flat_map(|es| es.iter())
+            .filter(|e| e.1 != empty_policy_marker() && u64::from(e.2) > 0).map(|e| (e.0.clone(), e.1.clone())).collect();
+        let (p, n) = if !holders.is_empty() && r.chance(5, 6) { r.pick(&holders).clone() } else { (policy_bytes(r.below(N_POLICIES)), gen_name(r)) };
+        let two64: i128 = 1i128 << 64;
+        let target: i128 = *r.pick(&[-two64, -two64, -(two64 - 1), -(1i128 << 63), 0, 1i128 << 63, two64 - 1, two64, -two64 - 1, -5]);
+        let k = r.range(2, 4);
+        let mut steps: Vec<i128> = vec![];
+        let mut sum: i128 = 0;
+        for _ in 0..k - 1 {
+            // a legal, non-zero step on the way to the target (same sign, not beyond it); towards 0: anything small
+            let rest = target - sum;
+            let a: i128 = if rest == 0 { let x = r.range(1, 1000) as i128; if r.chance(1, 2) { x } else { -x } }
+                          else { let m = rest.unsigned_abs(); let mag = if m <= 1 { 1 } else { 1 + (r.next() as u128 | ((r.next() as u128) << 64)) % (m - 1).max(1) };
+                                 let mag = mag.min((two64 - 1) as u128) as i128; if rest > 0 { mag } else { -mag } };
+            steps.push(a); sum += a;
+        }
+        let last = target - sum;
+        if last != 0 { steps.push(last); }
+        for (i, a) in steps.iter().enumerate() {
+            let txt = format!("{}", a);
+            hist.push(match r.below(4) { 0 => Op::AddMint(p.clone(), n.clone(), txt), 1 if i == 0 => Op::Mint(true, p.clone(), n.clone(), txt), _ => Op::Mint(false, p.clone(), n.clone(), txt) });
+        }
+    }
     // phase 2 entry points: mint together with an output, deprecated setters
     if matches!(stream, 4 | 6 | 7) || r.chance(1, 10) {
         let nm = r.below(3);
@@ -1044,7 +1071,7 @@ fn gen_scenario(r: &mut Rng, stream: u32) -> Scenario {
     if r.chance(1, 10) { post.push(Op::Change(change_addr, 0)); }           // a second change attempt
     if r.chance(1, 15) { post.push(Op::Out(r.range(1, 30), 0, Val::ada(1_500_000))); }   // edits after balancing
     post.push(Op::Build);
-    let mut ops = pre; ops.extend(post);
+    let mut ops = pre; ops.extend(hist); ops.extend(post);
     Scenario { label: label.to_string(), cfg, utxos, ops }
 }
 
